@@ -28,9 +28,10 @@ type part struct {
 }
 
 type partResult struct {
-	sums  []*Summary
-	viols []*Line
-	err   error
+	sums   []*Summary
+	viols  []*Line
+	err    error
+	gaveUp int // workers that stopped after repeated confirmed crashes / hangs
 }
 
 // verifDir is where MANIFEST.json, known_findings.json, evidence/ and replays/
@@ -210,6 +211,7 @@ func runPart(prop, tier string, seed uint64, p *part) *partResult {
 		go func(w int) {
 			defer wg.Done()
 			from := p.Base + w
+			confirmed := 0
 			for restarts := 0; ; restarts++ {
 				wo := spawn(p.Race, workerArgsFor(prop, tier, seed, p, w, from), 90*time.Second, 0)
 				mu.Lock()
@@ -227,6 +229,14 @@ func runPart(prop, tier string, seed uint64, p *part) *partResult {
 				}
 				// the worker died or hung
 				idx, ok := lastRun(wo.stderr)
+				if ok && restarts > 3 && confirmed > 0 {
+					// this worker keeps dying and every death so far was confirmed as a
+					// violation of its own: enough, the rest of its share is not run
+					mu.Lock()
+					res.gaveUp++
+					mu.Unlock()
+					return
+				}
 				if !ok || restarts > 3 {
 					mu.Lock()
 					res.err = fmt.Errorf("worker %d of part %s failed without a usable run marker (exit=%v timedOut=%v): %s", w, p.Name, wo.exitErr, wo.timedOut, tail(wo.stderr, 2000))
@@ -239,6 +249,7 @@ func runPart(prop, tier string, seed uint64, p *part) *partResult {
 					res.err = herr
 				} else if v != nil {
 					res.viols = append(res.viols, v)
+					confirmed++
 				}
 				mu.Unlock()
 				if herr != nil {
